@@ -584,5 +584,69 @@ class InPlaceHistories(Family):
         return 'ok', True, n
 
 
+class SignAllInputsOnOneObject(Family):
+    """the ordinary signing flow on ONE CMutableTransaction: every input is signed on the same object, each with its own
+    hash type, in every order (the scriptSig is assigned in place as soon as it is made), then every input is verified, in
+    every order, twice.  Signing or verifying one input never spoils another input's signature: each digest is the
+    reference digest of the model, every input verifies, and the object's serialisation is that of the model throughout"""
+    name = 'sign_all_inputs_on_one_object'
+    engine = 'E2'
+    nontrivial_rule = 'every case (two or three inputs with independent hash types)'
+    HTS = [0x01, 0x02, 0x03, 0x81, 0x82, 0x83]
+
+    def shards(self, tier):
+        return [(t, sh) for t in (0, 2, 5) for sh in (1, 4)]
+
+    def cases(self, shard, tier):
+        t, sh = shard
+        nin = SHAPES[sh][0]
+        for hts in itertools.product(self.HTS, repeat=nin):
+            if nin == 3 and tier == 'quick' and len(set(hts)) == 3 and t != 0:
+                continue
+            for order in itertools.permutations(range(nin)):
+                yield (t, sh, hts, order)
+
+    def check(self, case):
+        from bitcoin.core import ValidationError
+        from bitcoin.core.script import CScript
+        from bitcoin.core.scripteval import VerifyScript
+        t, sh, hts, order = case
+        name = TEMPLATES[t]
+        spk, subscript, signers, mk_sig = template(name)
+        nin, nout = SHAPES[sh]
+        m = C.default_tx(nin, nout)
+        tx = C.lib_tx(m, mutable=True)
+        what = '%s hash types %s shape %d/%d signing order %s' % (name, ['%#04x' % h for h in hts], nin, nout, list(order))
+        n = 0
+
+        def intact(when):
+            if tx.serialize() != W.encode_tx(m):
+                raise Viol('%s the transaction object no longer has the field values the caller gave it (%s)' % (when, what), W.encode_tx(m).hex()[:120], tx.serialize().hex()[:120])
+        for i in order:
+            digest, sigs, const1, owned = lib_sign(tx, subscript, i, hts[i], signers, 0, False)
+            want = SH.legacy(subscript, m, i, hts[i])[0]
+            if digest != want:
+                raise Viol('digest of input %d signed on one object after inputs %s were signed (%s)' % (i, list(order[:order.index(i)]), what), want.hex(), digest.hex())
+            intact('after computing the digest of input %d' % i)
+            ss = mk_sig(sigs)
+            tx.vin[i].scriptSig = CScript(ss)
+            m['vin'][i]['script'] = ss
+        for rnd in (0, 1):
+            for vorder in (order, tuple(reversed(order))):
+                for i in vorder:
+                    try:
+                        VerifyScript(tx.vin[i].scriptSig, CScript(spk), tx, i, flags=L.lib_flags(P2SHF))
+                        r = ('ok',)
+                    except ValidationError as e:
+                        r = ('fail', type(e).__name__)
+                    except Exception as e:  # noqa
+                        r = ('EXC', '%s: %s' % (type(e).__name__, str(e)[:80]))
+                    n += 1
+                    if r[0] != 'ok':
+                        raise Viol('input %d of a fully signed transaction is rejected (verification order %s, round %d; %s)' % (i, list(vorder), rnd, what), 'accept', r)
+                    intact('after verifying input %d' % i)
+        return 'ok', True, n
+
+
 def families(tier):
-    return [SignEditVerify(), VerifySignatureApi(), StaleKeyHistories(), InPlaceHistories()]
+    return [SignEditVerify(), VerifySignatureApi(), StaleKeyHistories(), InPlaceHistories(), SignAllInputsOnOneObject()]
